@@ -1,8 +1,9 @@
 (* Receiving side: for EVERY queue discipline and every history of Recv / RecvMultipart / Enqueue / Register /
    Deregister / Close, what the application is handed is the concatenation of the batches taken off the queue,
-   frame by frame, in order - except in two classes of histories, both exhibited below on the faithful model:
-   (1) AnonymousIngressEngine: deregister_pipe (of ANY pipe) / close while a message is half read discards the
-       unread frames;  (2) DEALER/ROUTER: recv_multipart while a message is half read by recv() jumps the queue. *)
+   frame by frame, in order.  Only close() of the socket itself abandons a half-read message.
+   (Before the repairs of C02 findings 1 and 2 two more classes failed: deregister_pipe of any pipe cleared the
+   cache, and DEALER/ROUTER recv_multipart jumped over a half-read message; their witnesses are kept below and
+   now deliver whole.) *)
 From RZ Require Import Base.Prelude Model.Codec Model.RouterMap Model.Envelope Model.FrameBatch Model.SendFlags
   Model.Ingress Proofs.FrameBatchProofs Proofs.EnvelopeProofs Proofs.SendFlagsProofs.
 Local Open Scope N_scope.
@@ -93,10 +94,10 @@ Lemma cache_frames_tail (rest : list frame) :
 Proof. destruct rest; reflexivity. Qed.
 
 (* ================================================================ AnonymousIngressEngine *)
-(* does this operation discard a half-read message? *)
+(* does this operation discard a half-read message?  only closing the socket does *)
 Definition drops (o : op) (c : cache) : bool :=
   match o with
-  | ODeregister _ | OClose => nonnil (cache_frames c)
+  | OClose => nonnil (cache_frames c)
   | _ => false
   end.
 Fixpoint no_drop (os : list op) (st : astate) : bool :=
@@ -164,8 +165,8 @@ Proof.
     split; [split; assumption | reflexivity].
   - destruct (qo_reg qo p q) as [q' h]. injection H as <- <-. cbn. rewrite app_nil_r. split; [reflexivity|].
     split; [split; assumption | reflexivity].
-  - injection H as <- <-. cbn [drops] in Hd. cbn. destruct (cache_frames c); [|discriminate].
-    split; [reflexivity|]. split; [split; [apply last_nomore_nil | cbn; lia] | reflexivity].
+  - injection H as <- <-. cbn. rewrite app_nil_r. split; [reflexivity|].
+    split; [split; assumption | reflexivity].
   - injection H as <- <-. cbn [drops] in Hd. cbn. destruct (cache_frames c); [|discriminate].
     split; [reflexivity|]. split; [split; [apply last_nomore_nil | cbn; lia] | reflexivity].
 Qed.
@@ -186,6 +187,18 @@ Proof.
     unfold popped_frames in *. rewrite popped_cons, returned_cons, has_panic_cons, map_app, concat_app, P1, P2.
     split; [|reflexivity]. cbn [snd] in *. rewrite app_assoc, A1, <- app_assoc, A2, app_assoc. reflexivity.
 Qed.
+
+(* every history of recv / recv_multipart / enqueue / register / deregister (the socket is not closed meanwhile) *)
+Definition no_close (os : list op) : Prop := Forall (fun o => o <> OClose) os.
+Lemma no_close_no_drop : forall os st, no_close os -> no_drop os st = true.
+Proof.
+  induction os as [|o t IH]; intros st H; [reflexivity|]. inversion H as [|? ? Ho Ht]; subst.
+  cbn [no_drop]. rewrite (IH _ Ht), andb_true_r. destruct o; try reflexivity. congruence.
+Qed.
+Theorem anon_accounting_open : forall os st st' es,
+  anon_run qo os st = (st', es) -> cache_inv (snd st) -> no_close os -> Forall good (popped es) ->
+  cache_frames (snd st) ++ popped_frames es = returned es ++ cache_frames (snd st') /\ has_panic es = false.
+Proof. intros os st st' es H I Hc Hg. exact (anon_accounting os st st' es H I (no_close_no_drop os st Hc) Hg). Qed.
 
 (* histories that only use recv_multipart never touch the cache: every result is exactly one queued batch,
    whatever is registered, deregistered or closed meanwhile *)
@@ -228,18 +241,19 @@ Proof.
   destruct (fb_extend_ok d fb_new) as (bt & -> & Lb); [cbn; lia|]. cbn [fb_new fb_list app] in Lb. rewrite Lb. reflexivity.
 Qed.
 
-(* deregistering ANY pipe, or closing, forgets the unread frames of the message being read *)
-Lemma anon_deregister_discards (q : Q) c p :
-  anon_step qo (ODeregister p) (q, c) = ((qo_dereg qo p q, None), EvUnit).
+(* a peer detaching leaves the unread frames of the message being read where they are *)
+Lemma anon_deregister_keeps (q : Q) c p :
+  anon_step qo (ODeregister p) (q, c) = ((qo_dereg qo p q, c), EvUnit).
 Proof. reflexivity. Qed.
 
 (* ================================================================ DEALER / ROUTER frame_recv_buffer *)
 Context (process : pipe -> batch -> out batch).
 
-(* processed batches the application can tell apart from "nothing": canonical and non-empty *)
+(* processed batches the application can tell apart from "nothing": canonical, non-empty, at most 255 frames *)
 Definition pgood (e : ev) : Prop :=
   match e with
-  | EvRet _ (Some (p, raw)) => exists b, process p raw = Ok b /\ fb_canon b /\ fb_list b <> []
+  | EvRet _ (Some (p, raw)) =>
+      exists b, process p raw = Ok b /\ fb_canon b /\ fb_list b <> [] /\ (length (fb_list b) <= 255)%nat
   | _ => True
   end.
 Definition ev_processed (e : ev) : list frame :=
@@ -248,21 +262,13 @@ Definition ev_processed (e : ev) : list frame :=
   | _ => []
   end.
 Definition processed_frames (es : list ev) : list frame := concat (map ev_processed es).
-
-(* recv_multipart called while recv() is in the middle of a message *)
-Definition mixes (o : op) (c : cache) : bool :=
-  match o with ORecvMultipart => nonnil (cache_frames c) | _ => false end.
-Fixpoint no_mix (os : list op) (st : astate) : bool :=
-  match os with
-  | [] => true
-  | o :: t => negb (mixes o (snd st)) && no_mix t (fst (fbuf_step qo process o st))
-  end.
+Definition buf_inv (c : cache) : Prop := (length (cache_frames c) <= 255)%nat.
 
 Lemma fbuf_step_accounting o (q : Q) c st' e :
-  fbuf_step qo process o (q, c) = (st', e) -> mixes o c = false -> pgood e ->
-  cache_frames c ++ ev_processed e = ev_returned e ++ cache_frames (snd st') /\ ev_panic e = false.
+  fbuf_step qo process o (q, c) = (st', e) -> buf_inv c -> pgood e ->
+  cache_frames c ++ ev_processed e = ev_returned e ++ cache_frames (snd st') /\ buf_inv (snd st') /\ ev_panic e = false.
 Proof.
-  intros H Hm Hg. destruct o as [| |h b|p|p|]; cbn [fbuf_step] in H.
+  intros H Ib Hg. unfold buf_inv in *. destruct o as [| |h b|p|p|]; cbn [fbuf_step] in H.
   - unfold fbuf_recv in H.
     assert (forall st1 e1, (let '(q', r) := qo_pop qo q in
               match r with
@@ -273,73 +279,102 @@ Proof.
                   | Ok (f, stash) => ((q', stash), EvRet (RFrame f) (Some (p, raw)))
                   end
               end) = (st1, e1) -> pgood e1 ->
-              ev_processed e1 = ev_returned e1 ++ cache_frames (snd st1) /\ ev_panic e1 = false) as Hpop.
+              ev_processed e1 = ev_returned e1 ++ cache_frames (snd st1) /\
+              (length (cache_frames (snd st1)) <= 255)%nat /\ ev_panic e1 = false) as Hpop.
     { intros st1 e1 H1 G1. destruct (qo_pop qo q) as [q' [[p raw]|]].
-      - assert (exists b, process p raw = Ok b /\ fb_canon b /\ fb_list b <> []) as (b & Eb & C & Hn).
+      - assert (exists b, process p raw = Ok b /\ fb_canon b /\ fb_list b <> [] /\ (length (fb_list b) <= 255)%nat)
+          as (b & Eb & C & Hn & Lb).
         { destruct (bind (process p raw) split_first) as [[f stash]|]; injection H1 as <- <-; exact G1. }
         rewrite Eb in H1. cbn [bind] in H1. destruct (fb_list b) as [|f rest] eqn:E; [congruence|].
         rewrite (split_first_good b f rest C E) in H1. injection H1 as <- <-.
-        unfold ev_processed, ev_returned. rewrite Eb, E. cbn [returned ret_frames snd]. rewrite app_nil_r, cache_frames_tail. auto.
-      - injection H1 as <- <-. cbn. auto. }
+        unfold ev_processed, ev_returned. rewrite Eb, E. cbn [returned ret_frames snd]. rewrite app_nil_r, cache_frames_tail.
+        cbn [length] in Lb. split; [reflexivity|]. split; [lia | reflexivity].
+      - injection H1 as <- <-. cbn. split; [reflexivity|]. split; [lia | reflexivity]. }
     destruct c as [[|f rest]|].
     + cbn [cache_frames app]. apply (Hpop _ _ H Hg).
-    + injection H as <- <-. unfold ev_processed, ev_returned. cbn [returned ret_frames snd cache_frames app].
-      rewrite !app_nil_r, cache_frames_tail. auto.
+    + injection H as <- <-. unfold ev_processed, ev_returned. cbn [returned ret_frames snd cache_frames app] in *.
+      rewrite !app_nil_r, cache_frames_tail. split; [reflexivity|]. split; [cbn [length] in Ib; lia | reflexivity].
     + cbn [cache_frames app]. apply (Hpop _ _ H Hg).
-  - unfold fbuf_recv_multipart in H. cbn [mixes] in Hm.
-    destruct (cache_frames c) eqn:Ec; [|discriminate]. cbn [app].
-    destruct (qo_pop qo q) as [q' [[p raw]|]].
-    + assert (exists b, process p raw = Ok b) as (b & Eb).
-      { destruct (process p raw) as [b|] eqn:Eb; [eauto|]. injection H as <- <-. destruct Hg as (b & Hb & _). congruence. }
-      rewrite Eb in H. injection H as <- <-. unfold ev_processed, ev_returned. rewrite Eb.
-      cbn [returned ret_frames snd]. rewrite Ec, !app_nil_r. auto.
-    + injection H as <- <-. cbn. rewrite Ec. auto.
+  - unfold fbuf_recv_multipart in H.
+    assert (forall st1 e1, (let '(q', r) := qo_pop qo q in
+              match r with
+              | None => ((q', None), EvRet RWouldBlock None)
+              | Some (p, raw) =>
+                  match process p raw with
+                  | Panic => ((q', None), EvRet RPanic (Some (p, raw)))
+                  | Ok b => ((q', None), EvRet (RBatch (fb_list b)) (Some (p, raw)))
+                  end
+              end) = (st1, e1) -> pgood e1 ->
+              ev_processed e1 = ev_returned e1 ++ cache_frames (snd st1) /\
+              (length (cache_frames (snd st1)) <= 255)%nat /\ ev_panic e1 = false) as Hpop.
+    { intros st1 e1 H1 G1. destruct (qo_pop qo q) as [q' [[p raw]|]].
+      - assert (exists b, process p raw = Ok b) as (b & Eb).
+        { destruct (process p raw) as [b|] eqn:Eb; [eauto|]. injection H1 as <- <-. destruct G1 as (b & Hb & _). congruence. }
+        rewrite Eb in H1. injection H1 as <- <-. unfold ev_processed, ev_returned. rewrite Eb.
+        cbn [returned ret_frames snd cache_frames length]. rewrite !app_nil_r. split; [reflexivity|]. split; [lia | reflexivity].
+      - injection H1 as <- <-. cbn. split; [reflexivity|]. split; [lia | reflexivity]. }
+    destruct c as [[|f rest]|].
+    + cbn [cache_frames app]. apply (Hpop _ _ H Hg).
+    + cbn [cache_frames] in Ib.
+      destruct (fb_extend_ok (f :: rest) fb_new) as (bt & Ebt & Lbt); [cbn [fb_new fb_list length] in *; lia|].
+      rewrite Ebt in H. cbn [fb_new fb_list app] in Lbt. injection H as <- <-.
+      unfold ev_processed, ev_returned. cbn [returned ret_frames snd cache_frames length]. rewrite Lbt, !app_nil_r.
+      split; [reflexivity|]. split; [lia | reflexivity].
+    + cbn [cache_frames app]. apply (Hpop _ _ H Hg).
   - destruct (qo_enq qo h b q) as [q' ok]. injection H as <- <-. cbn. rewrite app_nil_r. auto.
   - destruct (qo_reg qo p q) as [q' h]. injection H as <- <-. cbn. rewrite app_nil_r. auto.
   - injection H as <- <-. cbn. rewrite app_nil_r. auto.
   - injection H as <- <-. cbn. rewrite app_nil_r. auto.
 Qed.
 
+(* every history, any mix of recv and recv_multipart, any attach / detach / close meanwhile *)
 Theorem fbuf_accounting : forall os st st' es,
-  fbuf_run qo process os st = (st', es) -> no_mix os st = true -> Forall pgood es ->
+  fbuf_run qo process os st = (st', es) -> buf_inv (snd st) -> Forall pgood es ->
   cache_frames (snd st) ++ processed_frames es = returned es ++ cache_frames (snd st') /\ has_panic es = false.
 Proof.
-  induction os as [|o t IH]; intros st st' es H Hm Hg.
+  induction os as [|o t IH]; intros st st' es H Ib Hg.
   - injection H as <- <-. unfold processed_frames. cbn. rewrite app_nil_r. auto.
   - cbn [fbuf_run] in H. destruct (fbuf_step qo process o st) as [st1 e] eqn:E1.
     destruct (fbuf_run qo process t st1) as [st2 es2] eqn:E2. injection H as <- <-.
-    cbn [no_mix] in Hm. apply andb_prop in Hm. destruct Hm as [Hm1 Hm2]. rewrite E1 in Hm2. cbn [fst] in Hm2.
     inversion Hg as [|? ? G1 G2]; subst. destruct st as [q c].
-    destruct (fbuf_step_accounting o q c st1 e E1 ltac:(apply negb_true_iff; exact Hm1) G1) as (A1 & P1).
-    destruct (IH st1 st2 es2 E2 Hm2 G2) as (A2 & P2).
+    destruct (fbuf_step_accounting o q c st1 e E1 Ib G1) as (A1 & I1 & P1).
+    destruct (IH st1 st2 es2 E2 I1 G2) as (A2 & P2).
     unfold processed_frames in *. cbn [map concat]. rewrite returned_cons, has_panic_cons, P1, P2.
     split; [|reflexivity]. cbn [snd] in *. rewrite app_assoc, A1, <- app_assoc, A2, app_assoc. reflexivity.
 Qed.
+(* a recv_multipart in the middle of a message returns exactly its unread frames and empties the buffer *)
+Lemma fbuf_recv_multipart_remainder (q : Q) (d : list frame) : d <> [] -> (length d <= 255)%nat ->
+  fbuf_recv_multipart qo process (q, Some d) = ((q, None), EvRet (RBatch d) None).
+Proof.
+  intros Hn L. destruct d as [|f rest]; [congruence|]. unfold fbuf_recv_multipart.
+  destruct (fb_extend_ok (f :: rest) fb_new) as (bt & -> & Lb); [cbn [fb_new fb_list length] in *; lia|].
+  cbn [fb_new fb_list app] in Lb. rewrite Lb. reflexivity.
+Qed.
 End Generic.
 
-(* ================================================================ the two failing classes, on the faithful model *)
+(* ================================================================ the witnesses of the two repaired findings *)
 Definition fr (more : bool) (x : N) : frame := (more, [x]).
 Definition msgA : batch := FMany [fr true 10; fr true 11; fr false 12].
 Definition msgB : batch := FSingle (fr false 20).
 
 (* PULL/SUB: peer 1 sent A (three frames); the application has read the first frame; a DIFFERENT, idle peer
-   (pipe 3) disconnects; the next recv() no longer finds frames 2 and 3 of A *)
+   (pipe 3) disconnects.  Before the repair frames 2 and 3 of A were gone; now A is delivered whole. *)
 Definition wit_deregister : list op :=
-  [ORegister 1; ORegister 3; OEnqueue 0%nat msgA; ORecv; ODeregister 3; ORecv; OEnqueue 0%nat msgB; ORecv].
-Theorem recv_contiguous_refuted_deregister :
+  [ORegister 1; ORegister 3; OEnqueue 0%nat msgA; ORecv; ODeregister 3; ORecv; ORecv; OEnqueue 0%nat msgB; ORecv].
+Theorem recv_contiguous_deregister_witness :
   let '(st', es) := anon_run rpq_ops wit_deregister (q_new, None) in
   popped_frames es = [fr true 10; fr true 11; fr false 12; fr false 20] /\
-  returned es = [fr true 10; fr false 20] /\ cache_frames (snd st') = [] /\ no_drop rpq_ops wit_deregister (q_new, None) = false.
+  returned es = popped_frames es /\ cache_frames (snd st') = [].
 Proof. vm_compute. auto. Qed.
 
-(* DEALER/ROUTER: recv() has returned frame 1 of A; recv_multipart() then returns B; recv() then continues A *)
+(* DEALER/ROUTER: recv() has returned frame 1 of A; recv_multipart() now returns the rest of A (it used to
+   return B); the next recv() returns B *)
 Definition wit_mixed : list op :=
   [ORegister 1; OEnqueue 0%nat msgA; OEnqueue 0%nat msgB; ORecv; ORecvMultipart; ORecv; ORecv].
-Theorem recv_contiguous_refuted_mixed :
+Theorem recv_contiguous_mixed_witness :
   let '(st', es) := fbuf_run rpq_ops (fun _ b => Ok b) wit_mixed (q_new, None) in
   processed_frames (fun _ b => Ok b) es = [fr true 10; fr true 11; fr false 12; fr false 20] /\
-  returned es = [fr true 10; fr false 20; fr true 11; fr false 12] /\
-  no_mix rpq_ops (fun _ b => Ok b) wit_mixed (q_new, None) = false.
+  returned es = processed_frames (fun _ b => Ok b) es.
 Proof. vm_compute. auto. Qed.
 
 (* ================================================================ envelope handling on receive: limits *)
